@@ -314,6 +314,7 @@ func (manager *Manager) Sender() (css []ConvergenceSender) {
 		}
 		return true
 	})
+	css = simOrderSenders(css)
 	return
 }
 
@@ -330,6 +331,7 @@ func (manager *Manager) Receiver() (crs []ConvergenceReceiver) {
 		}
 		return true
 	})
+	crs = simOrderReceivers(crs)
 	return
 }
 
